@@ -7,6 +7,7 @@ package node
 //   ensures err == nil ==> result is the complete result set
 //
 // The fault-injecting driver fails the Next() that would deliver row k, for every k, for each leaf on the block path.
+// (Queries are recognised by the table they read, not by their exact text: re-formatting the SQL must not matter.)
 
 import (
 	"context"
@@ -55,29 +56,29 @@ func TestConf_RowIterationFaults(t *testing.T) {
 		call          func() (int, error) // number of items returned, error
 	}
 	leaves := []leaf{
-		{"SelectSnapshotBalances", "FROM snapshot_past as sn_past", 3, func() (int, error) {
+		{"SelectSnapshotBalances", "snapshot_past", 3, func() (int, error) {
 			tx := confBegin(t, d)
 			defer tx.Rollback()
 			r, err := d.Pegnet.SelectSnapshotBalances(tx)
 			return len(r), err
 		}},
-		{"SelectPendingRates", "SELECT token, value FROM pn_rate WHERE height", 4, func() (int, error) {
+		{"SelectPendingRates", "pn_rate", 4, func() (int, error) {
 			tx := confBegin(t, d)
 			defer tx.Rollback()
 			r, err := d.Pegnet.SelectPendingRates(context.Background(), tx, 5)
 			return len(r), err
 		}},
-		{"SelectRates", "SELECT token, value FROM pn_rate WHERE height", 4, func() (int, error) {
+		{"SelectRates", "pn_rate", 4, func() (int, error) {
 			r, err := d.Pegnet.SelectRates(context.Background(), 5)
 			return len(r), err
 		}},
-		{"SelectMostRecentRatesBeforeHeight", `FROM "pn_rate" WHERE "height" = (`, 4, func() (int, error) {
+		{"SelectMostRecentRatesBeforeHeight", "pn_rate", 4, func() (int, error) {
 			tx := confBegin(t, d)
 			defer tx.Rollback()
 			r, _, err := d.Pegnet.SelectMostRecentRatesBeforeHeight(context.Background(), tx, 9)
 			return len(r), err
 		}},
-		{"SelectTransactionBatchesInHoldingAtHeight", `FROM "pn_transaction_batch_holding" WHERE "height"`, 3, func() (int, error) {
+		{"SelectTransactionBatchesInHoldingAtHeight", "pn_transaction_batch_holding", 3, func() (int, error) {
 			r, err := d.Pegnet.SelectTransactionBatchesInHoldingAtHeight(300000)
 			return len(r), err
 		}},
@@ -122,7 +123,7 @@ func TestConf_Top100QueryFaults(t *testing.T) {
 		t.Fatal("fixture: the only PEG holder is not in the top 100")
 	}
 	bad := 0
-	vfSetFault("peg_balance > 0 ORDER BY", 1)
+	vfSetFault("peg_balance", 1)
 	in := d.Pegnet.IsIncludedTopPEGAddress(a[:])
 	f1 := vfFaultFired()
 	vfSetFault("", 0)
@@ -130,7 +131,7 @@ func TestConf_Top100QueryFaults(t *testing.T) {
 		bad++
 		t.Errorf("CONF leaf=IsIncludedTopPEGAddress clause=a_failed_query_is_reported: the query failed and the only PEG holder was answered 'not in the top 100' with no way to report the failure")
 	}
-	vfSetRowFault("peg_balance > 0 ORDER BY", 1)
+	vfSetRowFault("peg_balance", 1)
 	in = d.Pegnet.IsIncludedTopPEGAddress(a[:])
 	f2 := vfRowFaultFired()
 	vfSetRowFault("", 0)
